@@ -6,7 +6,9 @@ CFG = {
     "level_text": (
         "Theorems in Coq 8.16 over a hand-written executable model of syncx/pipe/mux (the seven handlers as "
         "branch-for-branch programs, map and LRU cache facade, locHash, one queue and one goroutine per worker; values "
-        "are integers or Go's nil - a callback may answer (nil, nil) and the handlers cache that nil as a present "
+        "carry a size - a cache.Value reports its own Size(), anything else counts 1, the LRU facade evicts from the "
+        "back while the total exceeds the capacity, so a value bigger than the whole capacity leaves its key "
+        "uncached; values are integers or Go's nil - a callback may answer (nil, nil) and the handlers cache that nil as a present "
         "entry; the handlers never look at the caller's context, as coded): "
         "(1) for EVERY sequential history of get/add/update/delete/update-or-add/upsert-then-load/upsert-then-renew "
         "over any keys, every worker count, either facade and EVERY pattern of failing load/add/update/upsert/delete "
@@ -35,7 +37,7 @@ CFG = {
         "these answers and snapshots); case_sound is a real theorem in both cases, proved through the model "
         "(seq_sound via do_op_spec; conc_sound via the invariants of C15_Sched.v and sched_same_key_serial). "
         "Environment assumptions: a failing callback leaves the store unchanged; callbacks touch only the key they "
-        "are called for; every cached value has Size() 1 in the LRU facade; locHash(MinInt) is negative and the "
+        "are called for; value sizes are encoded in the value's number (hundreds digits) so that model and harness agree on Size(); locHash(MinInt) is negative and the "
         "caller panics before anything is accepted (DESIGN section 8), so lochash_in_range carries that guard; the "
         "a cached nil stands for 'the store holds nothing for the key' (store row absent = nil), so coherence with "
         "nil values is the same equation; context cancellation is exercised in sequential histories only (in a "
@@ -46,7 +48,7 @@ CFG = {
     ),
     "rule": (
         "sequential: a random history (6..36 calls + probes) over 2..5 keys of one hasher.go key type, 1/2/3/5/127 "
-        "workers, map or LRU(0,1,2,3,100) facade, built by NewWorkGrp+logging facade or by NewWorkGrpWithMapCache/"
+        "workers, map or LRU(0..6,100) facade, data that become plain values or cache.Values of size 0,1,cap-1,cap,cap+1,3*cap, built by NewWorkGrp+logging facade or by NewWorkGrpWithMapCache/"
         "WithLRU, callback faults at rate 0/0.1/0.25/0.5, '(nil, nil)' answers at rate 0/0.05/0.15, context "
         "cancellation by a callback at rate 0/0.08/0.2 (each followed by a barrier call); non-trivial = at least one cache hit and one successful "
         "store write. scheduled: 3..12 jobs on 1..3 keys, 1..3 workers, queue bound 0/1/2, a random interleaving of "
@@ -72,7 +74,7 @@ CFG = {
         "store callbacks are key-local: a callback for key k reads and writes only k's row",
         "each public method of cache.Map, cache.LRUCache and mux.Q is one critical section (lock-discipline lint "
         "on every run), so a cache call by the DoGet fast path is atomic with respect to the worker's cache calls",
-        "values stored through FacadeLRU have Size() = 1 (mux._wrapper of a non-cache.Value)",
+        "the size of a cached value does not change while it is cached (the LRU stores entry.size at Set time)",
         "NewWorkGrp builds the workers' caches in index order (worker index observed as cache creation index)",
     ],
     "lint": [
